@@ -103,7 +103,9 @@ def run_behaviour(beh, timeout=600):
     node = os.path.join(d, "node")
     os.makedirs(node)
     obs, frm, err = [], 0, None
-    env = dict(os.environ, TMPDIR=tmp, RUST_BACKTRACE="0")
+    ltmp = os.path.join(d, "tmp")      # temp nodes of the lives (mirror node) live inside d, which is removed below
+    os.makedirs(ltmp)
+    env = dict(os.environ, TMPDIR=ltmp, RUST_BACKTRACE="0")
     try:
         for _life in range(len(beh["steps"]) + 2):
             try:
